@@ -183,6 +183,8 @@ def run_property(prop, tier, repo="/repo", quiet=False, write_evidence=True, sco
     extra = {}
     if tier == "thorough" and hasattr(mod, "thorough"):
         extra = mod.thorough(ctx) or {}
+    if tier == "thorough" and repo == "/repo" and os.environ.get("VERIF_NO_VARIANTS") != "1":
+        extra.update(run_variants(prop))
     known = [k for k in load_known() if k["property"] == prop]
     known_keys = {k["key"]: k for k in known if k.get("status") == "known"}
     lines = []
@@ -196,6 +198,9 @@ def run_property(prop, tier, repo="/repo", quiet=False, write_evidence=True, sco
             new.append(v)
     replay_dir = os.path.join(VERIF, "evidence", "replay")
     os.makedirs(replay_dir, exist_ok=True)
+    for old in os.listdir(replay_dir):
+        if old.startswith(prop + "-"):
+            os.unlink(os.path.join(replay_dir, old))
     for n, v in enumerate(new, 1):
         rp = os.path.join(replay_dir, "%s-%d.json" % (prop, n))
         with open(rp, "w") as fh:
@@ -216,6 +221,26 @@ def run_property(prop, tier, repo="/repo", quiet=False, write_evidence=True, sco
         for l in lines:
             print(l)
     return (1 if new else 0), ctx, new, hit
+
+
+def run_variants(prop):
+    """Thorough tier: checker self-test on the seeded variants of this property (mutants/ and seeded/)."""
+    from concurrent.futures import ThreadPoolExecutor
+    sys.path.insert(0, os.path.join(VERIF, "tools"))
+    import mutate
+    items = [i for i in mutate.collect(os.path.join(VERIF, "mutants")) + mutate.collect(os.path.join(VERIF, "seeded"))
+             if i[1] == prop]
+    if not items:
+        return {"variants": {"total": 0, "detected": 0, "list": []}}
+    with ThreadPoolExecutor(max_workers=4) as ex:
+        results = list(ex.map(lambda it: mutate.run_one(*it), items))
+    lst = [{"patch": r["patch"], "result": r["result"], "rules": r.get("rules", [])} for r in results]
+    det = sum(1 for r in results if r["result"] == "detected")
+    for r in results:
+        if r["result"] != "detected":
+            print("variant not detected: %s (%s) %s" % (r["patch"], r["result"], r.get("detail", "")[-300:]))
+    return {"variants": {"total": len(results), "detected": det, "list": lst,
+                         "note": "each variant is a source edit that still type-checks; the checker must report it by rule"}}
 
 
 def write_ev(prop, tier, ctx, info, wall, new, hit, extra, mod):
